@@ -56,7 +56,9 @@ SPECS = {
         leaves={'self.best.GetIndex()': ('ib', Zt), 'point.GetIndex()': ('ip', Zt), 'point.GetZ()': ('zp', T), 'self.best.GetZ()': ('zb', T),
                 'self.best is None': ('best_none', Bt)},
         outs={'self.best': ('replace', Bt), 'self.recalc': ('recalc', Bt), 'self.Z[point.GetIndex()]': ('Zs', T)}, ret='outs',
-        ignore=['self.searchData.solution.bestTrials[0] = self.best'], marker_outs={'self.best': 'point'}),
+        ignore=['self.searchData.solution.bestTrials[0] = self.best', 'current = self.searchData.solution.bestTrials[0]',
+                'if current is self.best or len(current.functionValues) == 0 or self.best.GetZ() <= current.functionValues[0].value: self.searchData.solution.bestTrials[0] = self.best'],
+        marker_outs={'self.best': 'point'}),
 }
 
 
